@@ -11,3 +11,5 @@ import MimicProps.C03
 #print axioms MimicProps.C03.err_roundtrip
 #print axioms MimicProps.C03.coldef_roundtrip
 #print axioms MimicProps.C03.packet_kinds_distinct
+#print axioms MimicProps.C03.reply_builders_are_code
+#print axioms MimicProps.C03.code_ok_err_roundtrip
